@@ -224,7 +224,41 @@ def _launch(m: AccfgMachine, op, vals, core):
     d.busy_until = m.now + lat
     lv = tuple((n, m.get(vals, v)) for n, v in op.iter_params())
     w = frozenset(d.written)
-    m.hist.append(("launch", d.name, lv, {f: d.regs[f] for f in sorted(d.regs)}, w, frozenset(d.known)))
+    if "mult_vals" in op.attributes:
+        # gemmx launch with per-output-channel quantisation (comments of SNAXGEMMXAccelerator.lower_acc_launch): the
+        # streamers are launched once, then for every group of n channels the shift / mult registers are
+        # re-programmed, the array is launched and awaited; M and the temporal loop bound are divided by the
+        # number of groups.  Expected register contents at each of these launches, and what is left behind:
+        n = sum(1 for f in d.regs if f.startswith("mult_"))
+        mult = [x for x in op.attributes["mult_vals"].get_values()]
+        shift = [x for x in op.attributes["shift_vals"].get_values()]
+        groups = len(mult) // n
+        new_m = op.attributes["m"].value.data // groups
+        d.regs["M"] = d.regs["temporal_loop_bound"] = new_m
+        d.written |= {"M", "temporal_loop_bound"}
+        d.known |= {"M", "temporal_loop_bound"}
+        # the streamer launch comes first; the quantisation registers are re-programmed after it, so what they hold at
+        # that moment is not part of what this launch observes
+        quant = {f for f in d.regs if f.startswith(("shift_", "mult_"))}
+        snaps = [({f: d.regs[f] for f in sorted(d.regs) if f not in quant}, frozenset(d.written - quant))]
+        for g in range(groups):
+            sh = shift[g * n : g * n + n]
+            for j in range(0, len(sh), 4):
+                word = 0
+                for k, x in enumerate(sh[j : j + 4]):
+                    word |= (x & 0xFF) << (8 * k)  # value k of a group sits in byte k % 4 of shift_{k // 4}
+                d.regs[f"shift_{j // 4}"] = word
+                d.written.add(f"shift_{j // 4}")
+                d.known.add(f"shift_{j // 4}")
+            for j, x in enumerate(mult[g * n : g * n + n]):
+                d.regs[f"mult_{j}"] = x
+                d.written.add(f"mult_{j}")
+                d.known.add(f"mult_{j}")
+            snaps.append(({f: d.regs[f] for f in sorted(d.regs)}, frozenset(d.written)))
+        m.hist.append(("pclaunch", d.name, lv, snaps))
+        m.probe("per-channel-launch")
+    else:
+        m.hist.append(("launch", d.name, lv, {f: d.regs[f] for f in sorted(d.regs)}, w, frozenset(d.known)))
     vals[op.token] = ("token", d.name, d.launches)
     if core.loops:
         m.probe("launch-in-loop")
